@@ -105,7 +105,23 @@ func c10Gen(rt *rapid.T) wProg {
 				p.Ops = append(p.Ops, wOp{K: "tick", N: gPick(rt, []int{600, 1500}, "idle")},
 					wOp{K: "sub", S: first[m], T: "g0", A: gPick(rt, []string{"RWP", "N", "RWP"}, "nojoin")}, wOp{K: "tick", N: 12000})
 			}
-		case y < 8:
+		case y < 7:
+			// everybody leaves the group; somebody attaches at the very moment its idle timer fires (the
+			// topic says 'off' and is on its way out), goes away again or stays
+			for k := range p.Sess {
+				p.Ops = append(p.Ops, wOp{K: "leave", S: k, T: "g0"})
+			}
+			p.Ops = append([]wOp{{K: "lat"}}, p.Ops...)
+			p.Cfg.Lat = nil
+			m := gInt(rt, 0, len(p.Sess)-1, "atwho")
+			p.Ops = append(p.Ops, wOp{K: "sub", S: m, T: "g0", At: "g0", AtUs: gPick(rt, []int{0, 0, 1}, "atus")})
+			if gPct(rt, 50) {
+				p.Ops = append(p.Ops, wOp{K: "sub", S: m, T: "g0"})
+			}
+			if gPct(rt, 50) {
+				p.Ops = append(p.Ops, wOp{K: "leave", S: m, T: "g0"})
+			}
+		case y < 10:
 			// a P2P topic is created muted by one side while both sit on 'me'; later it is un-muted
 			// and the creator goes away and comes back
 			a, b := 2, 1
